@@ -157,6 +157,10 @@ def make_scenario(rnd, counts, nues_choices=None, fault=None, opts=None):
             ue["withAmbr"] = (s_ // 2) % 2 == 0
             # 139 is the id of the tunnel IE that follows the bit rate IE in the transfer: its encoding contains the octets 00 8B
             ue["ambrDl"] = num([139, 1 << 32, 4000000000000, 0, 256, 35584][s_ % 6])
+            if u >= 1 and d % 2 == 0:
+                # two UPFs that number their tunnels alike: the same TEID from another UPF address (a TEID is unique per address only)
+                ue["teid"] = list(ues[0]["teid"])
+                ue["upf"] = [ues[0]["upf"][0], ues[0]["upf"][1], ues[0]["upf"][2], (ues[0]["upf"][3] % 250) + 2]
         for u in range(1, len(ues)):
             if ues[u]["amfId"] in [x["amfId"] for x in ues[:u]]:
                 ues[u]["amfId"] = num(1000 + u)
